@@ -574,15 +574,39 @@ def _pred(case, stats):
                 ok = after == base.snapshot()
                 if ok and applied:
                     classes.add('write-applied')
+            if not ok and bundled and (payload_malformed or any(op is not None and op.get('malformed') for op in ops)):
+                # a bundle holding a member that is itself malformed: the simulator parses members sequentially, so the replies of
+                # the members after it need not line up with the requests any more.  What must hold: the tags are in a state reached
+                # by executing, in order, some of the bundle's WELL-FORMED writes -- the malformed member contributes nothing
+                probe = mdl.copy()
+                allowed = [probe.snapshot()]
+                frontier = [probe]
+                for i, op in writes:
+                    if op.get('unknown') or op.get('malformed') or op.get('path_unspecified'):
+                        continue
+                    nxt = []
+                    for st_ in frontier:
+                        exp = M.expect(st_, op)
+                        if exp['kind'] in ('write', 'attr_write'):
+                            c2 = st_.copy()
+                            M.apply_write(c2, exp)
+                            nxt.append(c2)
+                            allowed.append(c2.snapshot())
+                    frontier = (frontier + nxt)[:64]
+                if after in allowed:
+                    classes.add('bundle-with-malformed-member:well-formed-neighbours-executed')
+                    ok = True
             if ok:
                 resync()
                 return
             want = base.snapshot()
             diff = [n for n in after if after[n] != want[n]]
-            if payload_malformed:
-                sig = 'malformed-request-altered-tags:service-payload:' + payload_malformed[0].get('why', 'other')
-            elif any(op is not None and op.get('malformed') and op.get('svc') is None for op in ops):
-                sig = 'malformed-request-altered-tags:' + [op['why'] for op in ops if op is not None and op.get('malformed') and op.get('svc') is None][0]
+            bad_members = [op for op in ops if op is not None and op.get('malformed')]
+            if bad_members:
+                # root cause = the first malformed member in bundle order (members are executed in that order)
+                first = bad_members[0]
+                sig = ('malformed-request-altered-tags:' + first.get('why', 'other') if first.get('svc') is None
+                       else 'malformed-request-altered-tags:service-payload:' + first.get('why', 'other'))
             else:
                 sig = 'wellformed-request-wrong-effect'
             stats.fail('stream', sig, case,
